@@ -259,7 +259,7 @@ func runC03(c *Ctx) {
 	if co := p.Fn("broker", "(*IPC).ClientOffers"); co != nil {
 		var X *ssa.Call
 		for _, ci := range callsIn(co) {
-			if f := staticCallee(ci); f != nil && f.Name() == "matchSnowflake" {
+			if f := staticCallee(ci); f != nil && f == p.Fn("broker", "(*IPC).matchSnowflake") {
 				X, _ = ci.(*ssa.Call)
 			}
 		}
